@@ -197,7 +197,7 @@ func (m *c13Min) minimise(c C13Case, msg string) (C13Case, string) {
 func cmdC13(args []string) {
 	o := baseOpts("C13", args)
 	start := time.Now()
-	nProj, nSched := 8, 10
+	nProj, nSched := 10, 12
 	if o.Tier == "thorough" {
 		nProj, nSched = 150, 40
 	}
